@@ -27,7 +27,7 @@ def run(ctx: Ctx) -> None:
     if ctx.tier == "thorough":
         ctx.leanchecker(["O2P.Props.C02"])
     quick = ctx.tier == "quick"
-    cases = lc.build_cases(ctx, 250 if quick else 3000, [4, 6, 8, 10, 12], with_corpus=True)
+    cases = lc.build_cases(ctx, 250 if quick else 3000, [4, 6, 8, 10, 12], with_corpus=True, bunched=True)
     ctx.cov["rule"] = (
         "definitions as in C01 (small exhaustive family, seeded random fragment-F definitions up to 12 events, the 63 "
         "corpus files) with their complete job sets (loops once and twice); every job of the emitted diagram with loops "
